@@ -68,7 +68,8 @@ def array(draw, pool):
     else:
         flat = [[draw(_finite_float()), draw(_finite_float())] for _ in range(r * c)]
     a = {"t": "array", "dtype": dt, "shape": [r, c], "flat": flat,
-         "memory": draw(st.sampled_from(["C", "C", "F", "transposed-view", "reversed-view"]))}
+         "memory": draw(st.sampled_from(["C", "C", "F", "transposed-view", "reversed-view"])),
+         "int_dtype": draw(st.sampled_from(["int64", "int64", "uint64", "int32", "uint8"]))}
     pool.append(a)
     return a
 
@@ -167,6 +168,14 @@ def realise(d):
             a = np.array([complex(x[0], x[1]) for x in d["flat"]], dtype=np.complex128)
         elif d["dtype"] == "int":
             a = np.array(d["flat"], dtype=np.int64)
+            # other integer dtypes holding the same values (the declaration must reproduce every element exactly)
+            it = d.get("int_dtype", "int64")
+            if it == "uint64" and a.min() >= 0:
+                a = a.astype(np.uint64)
+            elif it == "int32" and np.abs(a).max() < 2 ** 31:
+                a = a.astype(np.int32)
+            elif it == "uint8" and a.min() >= 0 and a.max() < 256:
+                a = a.astype(np.uint8)
         else:
             a = np.array(d["flat"], dtype=np.float64)
         a = a.reshape(d["shape"])
